@@ -36,6 +36,14 @@ HAND = {
     'warn': ('def m a, b {\n ;a\n}\nm 0, 0\nloop:\n;loop\n', False, b''),
     'bad': ('nomacro 1\n', False, b''),
     'warn_stl': ('def m a, b {\n ;a\n}\nstl.startup\nm 0, 0\nstl.output "Hi"\nstl.loop\n', True, b''),
+    # several source files (a source is then a list of [relative path, text] in the GIVEN order, repeats allowed)
+    'mf_stl': ([['z_main.fj', "stl.startup\nstl.output 'A'\n"], ['a_tail.fj', "stl.output 'B'\nstl.loop\n"]], True, b''),
+    'mf_dirs': ([['src/main.fj', ';second\n'], ['lib/util.fj', 'second:\n;second\n']], False, b''),
+    'mf_three': ([['m/defs.fj', 'def nop2 {\n;\n;\n}\n'], ['z.fj', 'nop2\n;end\n'], ['b.fj', 'nop2\nend:\n;end\n']], False, b''),
+    'mf_three_stl': ([['y/defs.fj', 'def hi {\nstl.output "hi"\n}\n'], ['x/start.fj', 'stl.startup\nhi\n'],
+                      ['end.fj', 'hi\nstl.loop\n']], True, b''),
+    'mf_repeat': ([['a.fj', ';0\n;0\n'], ['a.fj', ';0\n;0\n']], False, b''),
+    'mf_repeat_mid': ([['z.fj', ';0\n'], ['a.fj', 'l:\n;l\n'], ['z.fj', ';0\n']], False, b''),
     'deeprec': ('def r n {\n rep(n, i) r n-1\n}\nr 3\nend:\n;end\n', False, b''),
 }
 CORPUS = [('print_tests/hello_world.fj', True, b''), ('print_tests/hello_no-stl.fj', False, b''),
@@ -52,6 +60,21 @@ def load_programs():
         if p.is_file():
             progs[Path(rel).stem.replace('-', '_')] = (p.read_text(), stl, inp)
     return progs
+
+
+def file_list(src):
+    """-> (the file arguments in the given order, {relative path: text})"""
+    if isinstance(src, str):
+        return ['prog.fj'], {'prog.fj': src}
+    return [f for f, _ in src], {f: t for f, t in src}
+
+
+def write_sources(casedir, src):
+    args, texts = file_list(src)
+    for f, t in texts.items():
+        (casedir / f).parent.mkdir(parents=True, exist_ok=True)
+        (casedir / f).write_text(t)
+    return args
 
 
 def gen_case(rng, progs, idx):
@@ -75,7 +98,18 @@ def gen_case(rng, progs, idx):
         o['debug'] = rng.choice([None, 'temp'])
     elif o['debug'] == 'temp' and rng.random() < 0.7:
         o['debug'] = 'path'
-    return {'id': idx, 'prog': name, 'opts': o}
+    case = {'id': idx, 'prog': name, 'opts': o}
+    if o['outfile'] and rng.random() < 0.15:
+        # the output path already holds the result of an earlier build with other options
+        pre = dict(o)
+        pre.update({'width': rng.choice([w for w in (None, 64, 32) if w != o['width']]),
+                    'version': rng.choice([v for v in (None, 1, 2, 3) if v != o['version']]),
+                    'werror': False, 'preset': rng.choice([None, 0, 9]), 'debug': None})
+        if pre['version'] == 0:
+            pre['flags'] = None
+        case['pre_opts'] = pre
+        case['pre_route'] = rng.choice(['asm', 'onestep'])
+    return case
 
 
 def directed_cases(progs, first_id):
@@ -104,6 +138,28 @@ def directed_cases(progs, first_id):
         add('warning-with-outfile', prog, werror=False)
         add('warning-as-error', prog, werror=True)
         add('warning-as-error', prog, outfile=False, debug='temp', werror=True)
+    # several source files: order, directories, repeated paths, top-level code in more than one file
+    for prog in ('mf_stl', 'mf_dirs', 'mf_three', 'mf_three_stl', 'mf_repeat', 'mf_repeat_mid'):
+        add('multi-file', prog)
+        add('multi-file', prog, width=32, version=1, silent=False)
+    add('multi-file', 'mf_stl', outfile=False, debug='temp')
+    add('multi-file', 'mf_dirs', outfile=False, debug='temp')
+    # the -o path already exists, written by an earlier build with OTHER options
+    def seq(prog, pre, route, **kw):
+        add('existing-outfile', prog, **kw)
+        if out and out[-1]['prog'] == prog:
+            p = dict(out[-1]['opts'])
+            p.update(pre)
+            out[-1]['pre_opts'] = p
+            out[-1]['pre_route'] = route
+    seq('tiny', {'width': 64, 'version': 3}, 'onestep', width=32, version=2)
+    seq('hello_world', {'width': 64}, 'asm', width=32)
+    seq('hello_world', {'version': 1}, 'onestep')
+    seq('hexprint', {'preset': None}, 'onestep', preset=0)
+    seq('warn', {'werror': False}, 'onestep', werror=True)
+    seq('warn_stl', {'werror': False}, 'asm', werror=True)
+    seq('mf_dirs', {'width': 16}, 'onestep', width=64)
+    seq('hello_no_stl', {'version': 0}, 'asm', version=3, preset=1)
     # the documented defaults, one option at a time
     add('defaults', 'hello_world')
     add('defaults', 'hello_world', outfile=False, debug='temp')
@@ -210,19 +266,26 @@ def black_box(ctx, case, progs, casedir):
     o = case['opts']
     src, stl, stdin = progs[case['prog']]
     casedir.mkdir(parents=True, exist_ok=True)
-    (casedir / 'prog.fj').write_text(src)
+    files = write_sources(casedir, src)
     for r in ('r1', 'r2', 'r3'):
         (casedir / r).mkdir(exist_ok=True)
+    if case.get('pre_opts') and o['outfile']:
+        # an earlier build, with other options, already wrote the output paths the routes are about to use
+        po = case['pre_opts']
+        mode = case.get('pre_route', 'asm')
+        run_cli(argv_of(po, files, 'r1/out.fjm', None, mode), casedir, stdin)
+        for r in ('r2', 'r3'):
+            run_cli(argv_of(po, files, f'{r}/out.fjm', None, 'asm'), casedir, b'')
 
     def dbg(r):
         return {'path': f'{r}/d.fjd', 'temp': '', None: None}[o['debug']]
     obs = {}
     out1 = 'r1/out.fjm' if o['outfile'] else None
-    r1 = run_cli(argv_of(o, ['prog.fj'], out1, dbg('r1'), 'onestep'), casedir, stdin)
+    r1 = run_cli(argv_of(o, files, out1, dbg('r1'), 'onestep'), casedir, stdin)
     obs['onestep'] = {'rc': r1['rc'], 'stdout': norm_stdout(r1['out'], casedir), 'stderr_tail': r1['err'].strip().splitlines()[-1:],
                       'fjm': rd(casedir / 'r1/out.fjm'), 'fjd': rd(casedir / 'r1/d.fjd')}
     if o['outfile'] and o['debug'] != 'temp':
-        a = run_cli(argv_of(o, ['prog.fj'], 'r2/out.fjm', dbg('r2'), 'asm'), casedir, b'')
+        a = run_cli(argv_of(o, files, 'r2/out.fjm', dbg('r2'), 'asm'), casedir, b'')
         two = {'rc_asm': a['rc'], 'stdout': norm_stdout(a['out'], casedir), 'stderr_tail': a['err'].strip().splitlines()[-1:],
                'fjm': rd(casedir / 'r2/out.fjm'), 'fjd': rd(casedir / 'r2/d.fjd'), 'rc': a['rc']}
         if a['rc'] == 0 and two['fjm'] is not None:
@@ -237,7 +300,7 @@ def black_box(ctx, case, progs, casedir):
                 'debug': 'r3/d.fjd' if o['debug'] == 'path' else None,
                 'flags': o['flags'] if o['flags'] not in (None, 0) else None,
                 'preset': o['preset'] if o['preset'] not in (None, 6) else None}
-        r3 = run_api(ctx, {'files': ['prog.fj'], 'options': opts, 'combined': not o['outfile']}, casedir, stdin)
+        r3 = run_api(ctx, {'files': files, 'options': opts, 'combined': not o['outfile']}, casedir, stdin)
         obs['api'] = {'rc': r3['rc'], 'stdout': norm_stdout(r3['out'], casedir), 'res': r3['res'],
                       'fjm': rd(casedir / 'r3/out.fjm'), 'fjd': rd(casedir / 'r3/d.fjd')}
     return obs
@@ -300,13 +363,14 @@ def record_request(case, progs, casedir):
     """all routes of a case are run one after the other in one process and are given the SAME -o / -d paths"""
     o = case['opts']
     src, stl, stdin = progs[case['prog']]
+    files = write_sources(casedir, src)
     (casedir / 'b').mkdir(parents=True, exist_ok=True)
     dbg = {'path': 'b/d.fjd', 'temp': '', None: None}[o['debug']]
     two = o['outfile'] and o['debug'] != 'temp'
     return {
-        'cwd': str(casedir), 'files': ['prog.fj'], 'stdin': stdin.hex(),
-        'argv_onestep': argv_of(o, ['prog.fj'], 'b/out.fjm' if o['outfile'] else None, dbg, 'onestep'),
-        'argv_asm': argv_of(o, ['prog.fj'], 'b/out.fjm', dbg, 'asm') if two else None,
+        'cwd': str(casedir), 'files': files, 'stdin': stdin.hex(),
+        'argv_onestep': argv_of(o, files, 'b/out.fjm' if o['outfile'] else None, dbg, 'onestep'),
+        'argv_asm': argv_of(o, files, 'b/out.fjm', dbg, 'asm') if two else None,
         'argv_run': argv_of(o, ['b/out.fjm'], None, dbg, 'run') if two else None,
         'api': quickstart_expressible(o), 'api_out': 'b/out.fjm', 'combined': not o['outfile'],
         'options': {'width': o['width'], 'version': o['version'], 'no_stl': o['no_stl'], 'werror': o['werror'],
@@ -378,10 +442,10 @@ def case_term(case, rq, routes, stl_paths):
     o = case['opts']
     cwd = rq['cwd']
     dbg_u = {'path': '(Some (Some "b/d.fjd"))', 'temp': '(Some None)', None: 'None'}[o['debug']]
-    u = (f'(mkuo ["prog.fj"] {co(o["width"], cz)} {co(o["version"], cz)} {co(o["flags"], cz)} {cb(o["no_stl"])} '
+    u = (f'(mkuo {cl(cs(f) for f in rq["files"])} {co(o["width"], cz)} {co(o["version"], cz)} {co(o["flags"], cz)} {cb(o["no_stl"])} '
          f'{co("b/out.fjm" if o["outfile"] else None, cs)} {dbg_u} {cb(o["werror"])} {co(o["preset"], cz)} {cb(o["silent"])} '
          f'{co(o["max_depth"], cz)} false false false None None None [] [])')
-    before = ['prog.fj', f'{cwd}/prog.fj'] + stl_paths
+    before = [f for f in rq['files']] + [f'{cwd}/{f}' for f in rq['files']] + stl_paths
     one, two, api = routes.get('onestep'), routes.get('twostep'), routes.get('api')
 
     def tmp_of(part):
